@@ -58,6 +58,10 @@ def all_paths(A, B, out, site_prefix=""):
     return res
 
 
+def u_():
+    return L.utils
+
+
 def noncommuting_pair(A, B):
     m, k, _ = A.shape
     n = B.shape[1]
@@ -141,6 +145,19 @@ def check_product(case):
         err = np.abs(C - Cx)
         ratio = float(np.max(err / bound))
         out.le(name + ":C=sum_k A_ik*B_kj", ratio, 1.0, f"max entrywise error/bound over {m}x{n} entries")
+    # successive kernel calls whose left operands SHARE the real-part object (A, then conj(A) written as
+    # (A0, -A1, -A2, -A3)): each call must answer for the planes it was given
+    pA, pB = planes(A, True), planes(B, True)
+    ok1, _ = out.call("timesQsparse(sparse planes), first of two calls", u_().timesQsparse, *pA, *pB)
+    ok2, r2 = out.call("timesQsparse(sparse planes; same real-part object, negated imaginary planes)", u_().timesQsparse,
+                       pA[0], -pA[1], -pA[2], -pA[3], *pB)
+    if ok1 and ok2:
+        C2 = to_float(np.stack([np.asarray(x) for x in r2], axis=-1))
+        Ce2, Se2 = ref.mat_mul_exact(ref.conj(A), B)
+        b2 = (4 * k + 4) * 4 * U_ * ref.exact_to_float(Se2) + 1e-300
+        if out.true("timesQsparse(shared real-part object):shape", C2.shape == (m, n, 4), f"{C2.shape}"):
+            out.le("timesQsparse(shared real-part object):second call answers for ITS planes (conj(A) B)",
+                   float(np.max(np.abs(C2 - ref.exact_to_float(Ce2)) / b2)), 1.0)
     names = list(paths)
     for x, y in zip(names, names[1:]):
         if paths[x].shape == paths[y].shape:
